@@ -49,7 +49,9 @@ fn parse_list_declaration(input: &str) -> Result<ListDeclaration, CompilerError>
     let rhs = input[eq_pos + 1..].trim();
 
     let mut items = Vec::new();
-    let mut value: u32 = 1;
+    // The value the next item gets when it does not name one: one more than
+    // the previous item's (none when that does not fit into 32 bits).
+    let mut next_value: Option<i32> = Some(1);
     for raw in rhs.split(',') {
         let item = raw.trim();
         if item.is_empty() {
@@ -63,26 +65,23 @@ fn parse_list_declaration(input: &str) -> Result<ListDeclaration, CompilerError>
                 (item, false)
             };
         // Check for explicit value assignment: `name = number`
-        if let Some((item_name, item_value)) = inner.split_once('=') {
-            let item_name = item_name.trim().to_owned();
-            let explicit_value: u32 = item_value.trim().parse().map_err(|_| {
+        let (item_name, value) = if let Some((item_name, item_value)) = inner.split_once('=') {
+            let explicit_value: i32 = item_value.trim().parse().map_err(|_| {
                 CompilerError::invalid_source(format!(
                     "invalid LIST item value: '{}'",
                     item_value.trim()
                 ))
             })?;
-            value = explicit_value;
-            items.push((item_name, value, selected));
+            (item_name.trim().to_owned(), explicit_value)
         } else {
-            items.push((inner.to_owned(), value, selected));
-        }
-        // List item values are 32-bit signed integers in the runtime.
-        if value > i32::MAX as u32 {
-            return Err(CompilerError::invalid_source(format!(
-                "LIST item value out of range: '{value}'"
-            )));
-        }
-        value += 1;
+            // List item values are 32-bit signed integers in the runtime.
+            let value = next_value.ok_or_else(|| {
+                CompilerError::invalid_source(format!("LIST item value out of range: '{inner}'"))
+            })?;
+            (inner.to_owned(), value)
+        };
+        items.push((item_name, value, selected));
+        next_value = value.checked_add(1);
     }
 
     Ok(ListDeclaration { name, items })
